@@ -742,21 +742,82 @@ func (p *pkgInfo) atomShape(recv, name string) ([]string, error) {
 	}
 	var out []string
 	var walk func(n ast.Node)
+	// names the function declares itself (receiver, parameters, results, := and var) are written as v0, v1, ... in
+	// the order of their declaration: renaming a local does not change the skeleton (field and package-level names
+	// are part of it)
+	locals := map[string]string{}
+	declare := func(id *ast.Ident) {
+		if id == nil || id.Name == "_" {
+			return
+		}
+		if _, ok := locals[id.Name]; !ok {
+			locals[id.Name] = fmt.Sprintf("v%d", len(locals))
+		}
+	}
+	fields := func(fl *ast.FieldList) {
+		if fl == nil {
+			return
+		}
+		for _, f := range fl.List {
+			for _, n := range f.Names {
+				declare(n)
+			}
+		}
+	}
+	fields(fd.Recv)
+	fields(fd.Type.Params)
+	fields(fd.Type.Results)
+	ast.Inspect(fd.Body, func(n ast.Node) bool {
+		switch n := n.(type) {
+		case *ast.AssignStmt:
+			if n.Tok == token.DEFINE {
+				for _, l := range n.Lhs {
+					if id, ok := l.(*ast.Ident); ok {
+						declare(id)
+					}
+				}
+			}
+		case *ast.RangeStmt:
+			if n.Tok == token.DEFINE {
+				if id, ok := n.Key.(*ast.Ident); ok {
+					declare(id)
+				}
+				if id, ok := n.Value.(*ast.Ident); ok {
+					declare(id)
+				}
+			}
+		case *ast.ValueSpec:
+			for _, id := range n.Names {
+				declare(id)
+			}
+		}
+		return true
+	})
 	exprStr := func(e ast.Expr) string {
 		var b bytes.Buffer
-		ast.Inspect(e, func(n ast.Node) bool {
+		var visit func(n ast.Node) bool
+		visit = func(n ast.Node) bool {
 			switch n := n.(type) {
 			case *ast.BasicLit:
 				b.WriteString(n.Value + " ")
+			case *ast.SelectorExpr:
+				ast.Inspect(n.X, visit)
+				b.WriteString(n.Sel.Name + " ") // a field / method / package member keeps its name
+				return false
 			case *ast.Ident:
-				b.WriteString(n.Name + " ")
+				if r, ok := locals[n.Name]; ok {
+					b.WriteString(r + " ")
+				} else {
+					b.WriteString(n.Name + " ")
+				}
 			case *ast.UnaryExpr:
 				b.WriteString(n.Op.String() + " ")
 			case *ast.BinaryExpr:
 				b.WriteString("(" + n.Op.String() + ") ")
 			}
 			return true
-		})
+		}
+		ast.Inspect(e, visit)
 		return strings.TrimSpace(b.String())
 	}
 	walk = func(n ast.Node) {
